@@ -9,7 +9,10 @@ Grammar accepted
   statements : docstring, print(...) [dropped], x = e, self.attr = e, if/elif/else, raise E(...), return e, pass
   expressions: int constants, names / attributes bound in the environment, + - * //, int(a / b) [floor division
                of non-negative operands, with an explicit ZeroDivisionError], int(e), int(<comparison>) [0/1],
-               abs(e), min(a,b), max(a,b), unary -, opaque expressions given by a per-function table
+               abs(e), min(a,b), max(a,b), unary -, c ** k for integer constants, opaque expressions given by a
+               per-function table
+  float-valued expressions (type Q: an exact fraction `PyQ`, IEEE rounding NOT modelled): Q-typed names, a / b
+               [true division, explicit ZeroDivisionError], q * e, abs(q), `x *= q`; int(np.floor(q)); q < e
   conditions : comparisons, and/or/not, `x is None` / `x is not None` for Option-typed names (turned into
                `match`), isinstance(x, int) on Int-typed names [folded to True], conditions mentioning
                `verbose` [folded to False: debugging prints], per-function constant table
@@ -23,7 +26,7 @@ class Unsupported(Exception):
 
 
 EXC = {'TypeError': 'typeErr', 'ValueError': 'valueErr', 'ZeroDivisionError': 'zeroDiv'}
-LEAN_TY = {'Int': 'Int', 'OptInt': 'Option Int', 'Bool': 'Bool'}
+LEAN_TY = {'Int': 'Int', 'OptInt': 'Option Int', 'Bool': 'Bool', 'Q': 'PyQ'}
 
 
 class Tr:
@@ -37,6 +40,7 @@ class Tr:
         self.assign_override = assign_override or {}
         self.out = []
         self.declared = []
+        self.decl_ty = {}
         self.shadow = []
 
     # ---------------- expressions
@@ -51,10 +55,43 @@ class Tr:
             return all(self.const_false(v) for v in e.values)
         return False
 
+    def is_q(self, e):
+        k = ast.unparse(e)
+        if k in self.opaque:
+            return False
+        if isinstance(e, (ast.Name, ast.Attribute)):
+            return self.env.get(k, (None, None))[1] == 'Q'
+        if isinstance(e, ast.BinOp):
+            if isinstance(e.op, ast.Div):
+                return True
+            if isinstance(e.op, ast.Mult):
+                return self.is_q(e.left) or self.is_q(e.right)
+            return False
+        if isinstance(e, ast.Call) and ast.unparse(e.func) == 'abs' and len(e.args) == 1:
+            return self.is_q(e.args[0])
+        return False
+
+    def qexpr(self, e):
+        """Lean term of type PyQ for a float-valued (or integer-valued, then embedded) expression"""
+        k = ast.unparse(e)
+        if not self.is_q(e):
+            return '(PyQ.ofInt %s)' % self.expr(e)
+        if isinstance(e, (ast.Name, ast.Attribute)):
+            return self.env[k][0]
+        if isinstance(e, ast.BinOp) and isinstance(e.op, ast.Div):
+            return '(← pyTrueDiv %s %s)' % (self.qexpr(e.left), self.qexpr(e.right))
+        if isinstance(e, ast.BinOp) and isinstance(e.op, ast.Mult):
+            return '(PyQ.mul %s %s)' % (self.qexpr(e.left), self.qexpr(e.right))
+        if isinstance(e, ast.Call) and ast.unparse(e.func) == 'abs':
+            return '(PyQ.abs %s)' % self.qexpr(e.args[0])
+        raise Unsupported('float expression ' + k)
+
     def expr(self, e):
         k = ast.unparse(e)
         if k in self.opaque:
             return self.opaque[k]
+        if self.is_q(e):
+            raise Unsupported('float-valued %s used as an integer value' % k)
         if isinstance(e, ast.Constant):
             if isinstance(e.value, bool) or not isinstance(e.value, int):
                 raise Unsupported('constant ' + repr(e.value))
@@ -76,6 +113,9 @@ class Tr:
                 return '(%s * %s)' % (a, b)
             if isinstance(e.op, ast.FloorDiv):
                 return '(← pyFloorDiv %s %s)' % (a, b)
+            if isinstance(e.op, ast.Pow) and isinstance(e.left, ast.Constant) and isinstance(e.right, ast.Constant) \
+                    and type(e.left.value) is int and type(e.right.value) is int and e.right.value >= 0:
+                return '((%d : Int) ^ (%d : Nat))' % (e.left.value, e.right.value)
             raise Unsupported('binary operator in ' + k)
         if isinstance(e, ast.UnaryOp) and isinstance(e.op, ast.USub):
             return '(- %s)' % self.expr(e.operand)
@@ -83,6 +123,9 @@ class Tr:
             f = ast.unparse(e.func)
             if f == 'int' and len(e.args) == 1 and not e.keywords:
                 a = e.args[0]
+                if isinstance(a, ast.Call) and ast.unparse(a.func) == 'np.floor' and len(a.args) == 1 \
+                        and not a.keywords and self.is_q(a.args[0]):
+                    return '(PyQ.floor %s)' % self.qexpr(a.args[0])
                 if isinstance(a, ast.BinOp) and isinstance(a.op, ast.Div):
                     # int(a / b): truncation of the true quotient; pyTruncDiv raises zeroDiv for b = 0
                     return '(← pyTruncDiv %s %s)' % (self.expr(a.left), self.expr(a.right))
@@ -104,6 +147,13 @@ class Tr:
             return '(' + op.join(self.cond(v) for v in e.values) + ')'
         if isinstance(e, ast.UnaryOp) and isinstance(e.op, ast.Not):
             return '(¬ %s)' % self.cond(e.operand)
+        if isinstance(e, ast.Compare) and len(e.ops) == 1 and (self.is_q(e.left) or self.is_q(e.comparators[0])):
+            a, b = e.left, e.comparators[0]
+            if isinstance(e.ops[0], ast.Lt):
+                return '(PyQ.lt %s %s = true)' % (self.qexpr(a), self.qexpr(b))
+            if isinstance(e.ops[0], ast.Gt):
+                return '(PyQ.lt %s %s = true)' % (self.qexpr(b), self.qexpr(a))
+            raise Unsupported('float comparison ' + k)
         if isinstance(e, ast.Compare) and len(e.ops) == 1:
             a, b = e.left, e.comparators[0]
             ops = {ast.Lt: '<', ast.LtE: '≤', ast.Gt: '>', ast.GtE: '≥', ast.Eq: '=', ast.NotEq: '≠'}
@@ -114,6 +164,8 @@ class Tr:
             x = ast.unparse(e.args[0])
             if self.env.get(x, (None, None))[1] == 'Int' and ast.unparse(e.args[1]) == 'int':
                 return 'True'
+            if self.env.get(x, (None, None))[1] == 'Q' and ast.unparse(e.args[1]) == 'float':
+                return 'True'
             raise Unsupported('isinstance ' + k)
         if isinstance(e, (ast.Name, ast.Attribute)) and self.env.get(k, (None, None))[1] == 'Bool':
             return '(%s = true)' % self.env[k][0]
@@ -123,15 +175,25 @@ class Tr:
     def emit(self, ind, s):
         self.out.append('  ' * ind + s)
 
-    def lean_var(self, name):
-        ln = name.replace('self.', '').replace('__', '').strip('_') + '_v'
+    def lean_var(self, name, ty='Int'):
+        ln = name.replace('self.', '').replace('__', '').strip('_') + ('_v' if ty == 'Int' else '_q')
         if ln not in self.declared:
             self.declared.append(ln)
+            self.decl_ty[ln] = ty
         return ln
+
+    def assign_q(self, ind, name, rhs):
+        l, t = self.env.get(name, (None, None))
+        if l is None or t != 'Q' or not l.endswith('_q'):
+            ln = self.lean_var(name, 'Q')
+            if l is not None and t == 'Q':
+                self.shadow.append((ln, l))
+            self.env[name] = (ln, 'Q')
+        self.emit(ind, '%s := %s' % (self.env[name][0], rhs))
 
     def assign(self, ind, name, rhs):
         l, t = self.env.get(name, (None, None))
-        if l is None or t == 'OptInt' or not l.endswith('_v'):
+        if l is None or t in ('OptInt', 'Q') or not l.endswith('_v'):
             ln = self.lean_var(name)
             if l is not None and t == 'Int':
                 self.shadow.append((ln, l))     # starts from the parameter's value
@@ -167,7 +229,15 @@ class Tr:
             tgt = ast.unparse(s.targets[0])
             if tgt in self.assign_override:
                 return self.assign(ind, tgt, self.assign_override[tgt](s.value))
+            if self.is_q(s.value):
+                return self.assign_q(ind, tgt, self.qexpr(s.value))
             return self.assign(ind, tgt, self.expr(s.value))
+        if isinstance(s, ast.AugAssign) and isinstance(s.op, ast.Mult):
+            tgt = ast.unparse(s.target)
+            prod = ast.BinOp(left=s.target, op=ast.Mult(), right=s.value)
+            if self.is_q(prod):
+                return self.assign_q(ind, tgt, self.qexpr(prod))
+            return self.assign(ind, tgt, self.expr(prod))
         if isinstance(s, ast.Raise):
             nm = ast.unparse(s.exc.func) if isinstance(s.exc, ast.Call) else ast.unparse(s.exc)
             if nm not in EXC:
@@ -221,7 +291,9 @@ def translate(fn, lean_name, params, outputs=None, **kw):
     tr.block(1, fn.body)
     sig = ' '.join('(%s : %s)' % (l, LEAN_TY[t]) for p, l, t in params)
     init = dict(tr.shadow)
-    decls = ['  let mut %s : Int := %s' % (v, init.get(v, '0')) for v in tr.declared]
+    decls = ['  let mut %s : %s := %s' % (v, LEAN_TY[tr.decl_ty.get(v, 'Int')],
+                                          init.get(v, '0' if tr.decl_ty.get(v, 'Int') == 'Int' else '⟨0, 1⟩'))
+             for v in tr.declared]
     body = list(tr.out)
     if outputs is not None:
         outs = []
@@ -316,7 +388,22 @@ def gen_process(repo):
     g3 = translate(_find(mod, '__set_cores', 'Process'), 'set_cores', p3, outputs=['self._cores'],
                    opaque={'psutil.cpu_count()': 'logical'}, const_conds={'self.mpi_comm is None': 'True'},
                    skip_stmt=lambda s: s.startswith(('self.__socket_master_rank =', 'self.__ranks_on_socket =')))
-    return g1, g2, g3
+    # __set_memory: float arithmetic rendered in exact fractions (PyQ)
+    p4 = [('avail', 'avail', 'Int'), ('man_mem_limit', 'man_mem_limit', 'OptInt'),
+          ('mem_multiplier', 'mem_multiplier', 'Q'), ('self._cores', 'cores', 'Int'),
+          ('self.__ranks_on_socket', 'ranks', 'Int'), ('itemsize', 'itemsize', 'Int'), ('columns', 'columns', 'Int')]
+    seen4 = {'avail': 0}
+
+    def skip4(src):
+        if src.startswith('avail_mem_bytes = get_available_memory()'):
+            seen4['avail'] += 1
+        return False
+    g4 = translate(_find(mod, '__set_memory', 'Process'), 'set_memory', p4, outputs=['self._max_pos_per_read'],
+                   opaque={'get_available_memory()': 'avail', 'self.h5_main.dtype.itemsize': 'itemsize',
+                           'self.h5_main.shape[1]': 'columns'}, skip_stmt=skip4)
+    if seen4['avail'] != 1:
+        raise Unsupported('__set_memory: available memory is no longer get_available_memory()')
+    return g1, g2, g3, g4
 
 
 def generate_all(repo, outdir):
